@@ -475,15 +475,12 @@ def eventDone (c : Cfg) (k : List Frame) (r e : Nat) (err : Bool) : Cfg :=
   else c.pop k (c.st.eventDonePre r e err).2
 
 def updateRoot (c : Cfg) (k : List Frame) (todo : List Nat) (root : Nat) : Cfg :=
-  match todo with
-  | [] => c.pop k c.st
-  | x :: rest =>
-    let s1 := c.st.modComp x fun y => { y with root := root }
-    c.goto k s1 [.updateRoot ((s1.comp x).children ++ rest) root]
+  c.pop k (St.updateRootAll (c.st.comps.length + 1) todo root c.st)
 
 def register (c : Cfg) (k : List Frame) (x p : Nat) : Cfg :=
   let root := (c.st.comp p).root
-  if (c.st.registerPre x p).1 then
+  if !(c.st.admissible x p) then c.raise k c.st .inadmissible
+  else if (c.st.registerPre x p).1 then
     if p != x then c.goto k (c.st.registerPre x p).2 [.updateRoot [x] root, .registerFin x]
     else c.goto k (c.st.registerPre x p).2 [.updateRoot [x] root]
   else c.raise k (c.st.registerPre x p).2 .unregistrable
